@@ -168,7 +168,10 @@ func (e *c19Env) option(tag string) util.Option {
 	case "WithSystemTransportOpenBin":
 		return options.WithSystemTransportOpenBin("/bin/ssh" + s)
 	case "WithSystemTransportOpenArgs":
-		return options.WithSystemTransportOpenArgs([]string{"-o", "X=" + s})
+		// a slice with room to spare, as one grown by append has
+		l := append(make([]string, 0, 8), "-o", "X="+s)
+
+		return options.WithSystemTransportOpenArgs(l)
 	case "WithSystemTransportOpenArgsOverride":
 		return options.WithSystemTransportOpenArgsOverride([]string{"override" + s})
 	case "WithSSHKnownHostsFile":
@@ -547,6 +550,94 @@ func c19Run(e *c19Env, s *c19Scn, ctor string) verdict {
 			fail(&v, "C19:"+ctor+":"+field+":"+kind, "constructor %s, platform options %v, user options %v: %s is %v, Fold says %v", ctor, s.Platform, s.User, field, have, want)
 
 			return v
+		}
+	}
+
+	// option values can be used again: a second object built from the very same option values (and one more additive option)
+	// leaves the first one as it is
+	if ctor == "g" || ctor == "n" || ctor == "c" {
+		again := append(append([]util.Option{}, opts...), e.option("WithSystemTransportOpenArgs:3"))
+
+		var err2 error
+
+		switch ctor {
+		case "g":
+			_, err2 = generic.NewDriver("h2", again...)
+		case "n":
+			_, err2 = network.NewDriver("h2", again...)
+		case "c":
+			_, err2 = netconf.NewDriver("h2", again...)
+		}
+
+		if err2 != nil {
+			fail(&v, "C19:"+ctor+":second-construction:error", "a second object from the same option values: %v", err2)
+
+			return v
+		}
+
+		// ... also when the two lists go on differently behind a shared additive option
+		if s.ID%25 == 0 {
+			shared := e.option("WithSystemTransportOpenArgs:1")
+			mk := func(o ...util.Option) (*transport.Transport, error) {
+				switch ctor {
+				case "g":
+					d, e1 := generic.NewDriver("h3", o...)
+					if e1 != nil {
+						return nil, e1
+					}
+
+					return d.Transport, nil
+				case "n":
+					d, e1 := network.NewDriver("h3", append(append([]util.Option{}, base...), o...)...)
+					if e1 != nil {
+						return nil, e1
+					}
+
+					return d.Transport, nil
+				default:
+					d, e1 := netconf.NewDriver("h3", o...)
+					if e1 != nil {
+						return nil, e1
+					}
+
+					return d.Transport, nil
+				}
+			}
+			args := func(t *transport.Transport) string {
+				if sys, ok := t.Impl.(*transport.System); ok {
+					return strings.Join(sys.ExtraArgs, " ")
+				}
+
+				return "?"
+			}
+
+			tA, eA := mk(shared, e.option("WithSystemTransportOpenArgs:2"))
+			if eA != nil {
+				fail(&v, "C19:"+ctor+":second-construction:error", "%v", eA)
+
+				return v
+			}
+
+			before := args(tA)
+			tB, eB := mk(shared, e.option("WithSystemTransportOpenArgs:3"))
+
+			if eB != nil || args(tA) != before || before != "-o X=1 -o X=2" || args(tB) != "-o X=1 -o X=3" {
+				fail(&v, "C19:"+ctor+":Sys.ExtraArgs:changed-by-a-second-construction", "open-args [X=1 (one option value used for both objects), X=2] gave %q; after a second object was built from [the same X=1 value, X=3] (err %v, it has %q) the first has %q",
+					before, eB, args(tB), args(tA))
+
+				return v
+			}
+		}
+
+		got2 := e.observe(g, n, c, ch, tr)
+
+		for field := range c19Fields {
+			if strings.Join(got[field], ",") != strings.Join(got2[field], ",") {
+				fail(&v, "C19:"+ctor+":"+field+":changed-by-a-second-construction", "constructor %s, options %v: %s was %v; after a second object had been built from the same option values (plus open-args X=3) it is %v",
+					ctor, all, field, got[field], got2[field])
+
+				return v
+			}
 		}
 	}
 
